@@ -83,7 +83,7 @@ func (vc *VC) entry() {
 		vc.paramVals = append(vc.paramVals, v)
 		vc.inputs = append(vc.inputs, inputDesc{Name: p.Name(), Type: p.Type().String(), V: v})
 		// API convention: pointer parameters and receivers are non-nil (checked at verified call sites)
-		if v.K == KPtr && !isUnsafePtr(p.Type()) {
+		if v.K == KPtr && !isUnsafePtr(p.Type()) && !(vc.c != nil && vc.c.Nullable[p.Name()]) {
 			vc.assume(sNot(sEq(v.C[0], "0")))
 		}
 		_ = i
@@ -115,6 +115,9 @@ func (vc *VC) entry() {
 	if vc.c != nil {
 		env := vc.entryEnv()
 		for _, cl := range vc.c.Requires {
+			if vc.c.clauseMode(cl) != vc.modeName() {
+				continue
+			}
 			vc.assume(vc.compileClause(env, cl))
 		}
 	}
@@ -143,6 +146,9 @@ func (vc *VC) execReturn(ins *ssa.Return) {
 	}
 	env := vc.contractEnv(vc.fn, vc.fn.Signature, vc.paramVals, res, vc.cur.heap, vc.heap0)
 	for i, cl := range vc.c.Ensures {
+		if vc.c.clauseMode(cl) != vc.modeName() {
+			continue
+		}
 		t := vc.compileClause(env, cl)
 		kind := "post"
 		if cl.Label != "" {
@@ -253,6 +259,8 @@ func (vc *VC) checkCallSites(ins *ssa.Call) {
 		vc.csHit[cs] = true
 		env := vc.entryEnv()
 		env.heap = vc.cur.heap
+		heapNow := vc.cur.heap
+		env.local = func(name string) *Val { return vc.localAtInstr(name, ins, heapNow) }
 		i := 0
 		if cc.IsInvoke() {
 			env.vars["arg0"] = vc.val(cc.Value)
@@ -335,7 +343,7 @@ func (vc *VC) callFunction(ins *ssa.Call, f *ssa.Function, args []*Val) {
 	sig := f.Signature
 	_, ptypes, _, _ := sigNames(sig)
 	for i, a := range args {
-		if a.K == KPtr && i < len(ptypes) && !isUnsafePtr(ptypes[i]) && vc.e.nonNilParams(f) {
+		if a.K == KPtr && i < len(ptypes) && !isUnsafePtr(ptypes[i]) && !vc.e.nullableParam(f, i) {
 			vc.oblige("pre.nonnil", vc.cur.pc, sNot(sEq(a.C[0], "0")), ins.Pos(), fmt.Sprintf("argument %d of %s is non-nil", i, f.Name()))
 		}
 	}
@@ -428,6 +436,11 @@ func (vc *VC) applyContract(ins *ssa.Call, c *Contract, f *ssa.Function, sig *ty
 		env.pkg = vc.e.contractPkg(c)
 	}
 	for i, cl := range c.Requires {
+		if c.clauseMode(cl) != vc.modeName() {
+			// a precondition written for the other integer encoding cannot be checked from this VC
+			vc.oblige("pre.cross-mode", vc.cur.pc, "false", ins.Pos(), "callee precondition is stated in the other integer mode: "+cl.Src)
+			continue
+		}
 		t := vc.compileClause(env, cl)
 		kind := fmt.Sprintf("pre.r%d", i+1)
 		if cl.Label != "" {
@@ -440,6 +453,9 @@ func (vc *VC) applyContract(ins *ssa.Call, c *Contract, f *ssa.Function, sig *ty
 		vc.oblige(kind, vc.cur.pc, t, ins.Pos(), fmt.Sprintf("precondition of %s: %s", name, cl.Src))
 	}
 	for _, cl := range c.PanicsIf {
+		if c.clauseMode(cl) != vc.modeName() {
+			continue
+		}
 		t := vc.compileClause(env, cl)
 		vc.oblige("pre.nopanic", vc.cur.pc, sNot(t), ins.Pos(), "documented panic condition of callee is excluded: "+cl.Src)
 	}
@@ -480,6 +496,9 @@ func (vc *VC) applyContract(ins *ssa.Call, c *Contract, f *ssa.Function, sig *ty
 		env2.pkg = vc.e.contractPkg(c)
 	}
 	for _, cl := range c.Ensures {
+		if c.clauseMode(cl) != vc.modeName() {
+			continue // postconditions stated in the other integer mode are not used here (sound: fewer assumptions)
+		}
 		vc.assume(sImp(vc.cur.pc, vc.compileClause(env2, cl)))
 	}
 }
